@@ -6,6 +6,6 @@ checks=${@:-C01 C02 C03 C04 C05 C06 C07 C08 C09 C10 C11 C12 C13 C14 C15 C16}
 for s in $(seq $from $to); do for c in $checks; do
   VERIF_SEED=$s ./check $c > /tmp/sweep.$c.$s.log 2>&1; rc=$?
   echo "rc=$rc $(tail -1 /tmp/sweep.$c.$s.log | cut -c1-120)"
-  grep -A1 "^VIOLATION" /tmp/sweep.$c.$s.log | grep -v "^--" | cut -c1-300
+  grep -A1 "^VIOLATION" /tmp/sweep.$c.$s.log | grep -v "^--" | cut -c1-300; mkdir -p /tmp/sweep-replays; for f in replays/$c-quick-*.json; do [ -f "$f" ] && cp $f /tmp/sweep-replays/s$s-$(basename $f); done
   grep "^INCONCLUSIVE\|^UNHEALTHY" /tmp/sweep.$c.$s.log | cut -c1-200
 done; done
